@@ -78,6 +78,19 @@ def polynomial_from_attributes(
     # Like numpy.array on the coefficients together: common type and shape,
     # settled before any term is dropped, such that neither depends on the
     # values. The cast comes first as well: it may turn a term into zeros.
+    # (lists are cast to a requested type directly, not by way of their own)
+    if dtype is not None and numpy.dtype(dtype).kind in "iu":
+
+        def direct(coefficient: Any) -> Any:
+            """Cast Python numbers to the requested integers directly."""
+            if isinstance(coefficient, (list, tuple, int)):
+                try:
+                    return numpy.asarray(coefficient, dtype=dtype)
+                except (TypeError, ValueError, OverflowError):
+                    pass
+            return coefficient
+
+        coefficients = [direct(coefficient) for coefficient in coefficients]
     coefficients = [numpy.asarray(coefficient) for coefficient in coefficients]
     if coefficients:
         if dtype is None:
